@@ -6,44 +6,44 @@ inheritance chain, the vertical-merge pass.
 namespace Tabula.Docx
 open Tabula.Xml
 
-/-! ### the second pass -/
+/-! ### the second pass as it was before block containers were looked through (HISTORY) -/
 
 /-- below a direct child of the body (depth ≥ 1) the walk changes nothing: whatever is
 nested there - paragraphs of table cells, nested tables, text boxes - is not counted -/
-theorem walk_nested_node (paras tbls : List Node) (n : Node) :
-    ∀ w : Walk, w.inBody = true → w.depth ≥ 1 → walkNode paras tbls n w = w := by
-  induction n using Node.rec (motive_2 := fun l => ∀ w : Walk, w.inBody = true → w.depth ≥ 1 → walkList paras tbls l w = w) with
+theorem walk_nested_node_old (paras tbls : List Node) (n : Node) :
+    ∀ w : WalkOld, w.inBody = true → w.depth ≥ 1 → walkNodeOld paras tbls n w = w := by
+  induction n using Node.rec (motive_2 := fun l => ∀ w : WalkOld, w.inBody = true → w.depth ≥ 1 → walkListOld paras tbls l w = w) with
   | elem tag attrs kids ih =>
     intro w hb hd
-    simp only [walkNode]
-    have hs : startTok paras tbls (localName tag) w = { w with depth := w.depth + 1 } := by
-      unfold startTok
+    simp only [walkNodeOld]
+    have hs : startTokOld paras tbls (localName tag) w = { w with depth := w.depth + 1 } := by
+      unfold startTokOld
       have : (w.depth + 1 != 1) = true := by
         simp only [bne_iff_ne, ne_eq]; omega
       simp [hb, this]
     rw [hs, ih _ (by simpa using hb) (by simp)]
-    unfold endTok
+    unfold endTokOld
     have h0 : (w.depth + 1 == 0) = false := by simp
     cases w with
     | mk ib d p t a =>
       simp only at hb
       subst hb
       simp [h0]
-  | text s => intro w _ _; simp [walkNode]
-  | nil => simp [walkList]
+  | text s => intro w _ _; simp [walkNodeOld]
+  | nil => simp [walkListOld]
   | cons n rest ihn ihr =>
     rename_i w hb hd
-    simp only [walkList]
+    simp only [walkListOld]
     rw [ihn w hb hd, ihr w hb hd]
 
-theorem walk_nested_list (paras tbls : List Node) (l : List Node) :
-    ∀ w : Walk, w.inBody = true → w.depth ≥ 1 → walkList paras tbls l w = w := by
+theorem walk_nested_list_old (paras tbls : List Node) (l : List Node) :
+    ∀ w : WalkOld, w.inBody = true → w.depth ≥ 1 → walkListOld paras tbls l w = w := by
   induction l with
-  | nil => intro w _ _; simp [walkList]
+  | nil => intro w _ _; simp [walkListOld]
   | cons n rest ih =>
     intro w hb hd
-    simp only [walkList]
-    rw [walk_nested_node paras tbls n w hb hd, ih w hb hd]
+    simp only [walkListOld]
+    rw [walk_nested_node_old paras tbls n w hb hd, ih w hb hd]
 
 
 mutual
@@ -55,6 +55,240 @@ def noBodyList : List Node → Bool
   | [] => true
   | n :: rest => noBodyNode n && noBodyList rest
 end
+
+/-- outside the body the walk only looks for the `body` start tag -/
+theorem walk_outside_node_old (paras tbls : List Node) (n : Node) :
+    ∀ w : WalkOld, w.inBody = false → noBodyNode n = true → walkNodeOld paras tbls n w = w := by
+  induction n using Node.rec (motive_2 := fun l => ∀ w : WalkOld, w.inBody = false → noBodyList l = true → walkListOld paras tbls l w = w) with
+  | elem tag attrs kids ih =>
+    intro w hb hn
+    simp only [noBodyNode, Bool.and_eq_true, bne_iff_ne, ne_eq] at hn
+    have hne : (localName tag == sBody) = false := by
+      cases h : localName tag == sBody
+      · rfl
+      · exact absurd (by simpa using h) hn.1
+    simp only [walkNodeOld]
+    have hs : startTokOld paras tbls (localName tag) w = w := by
+      unfold startTokOld; simp [hb, hne]
+    rw [hs, ih w hb hn.2]
+    unfold endTokOld; simp [hb]
+  | text s => intro w _ _; simp [walkNodeOld]
+  | nil => simp [walkListOld]
+  | cons n rest ihn ihr =>
+    rename_i w hb hn
+    simp only [noBodyList, Bool.and_eq_true] at hn
+    simp only [walkListOld]
+    rw [ihn w hb hn.1, ihr w hb hn.2]
+
+theorem walk_outside_list_old (paras tbls : List Node) (l : List Node) :
+    ∀ w : WalkOld, w.inBody = false → noBodyList l = true → walkListOld paras tbls l w = w := by
+  induction l with
+  | nil => intro w _ _; simp [walkListOld]
+  | cons n rest ih =>
+    intro w hb hn
+    simp only [noBodyList, Bool.and_eq_true] at hn
+    simp only [walkListOld]
+    rw [walk_outside_node_old paras tbls n w hb hn.1, ih w hb hn.2]
+
+theorem walkListOld_append (paras tbls : List Node) (a b : List Node) (w : WalkOld) :
+    walkListOld paras tbls (a ++ b) w = walkListOld paras tbls b (walkListOld paras tbls a w) := by
+  induction a generalizing w with
+  | nil => simp [walkListOld]
+  | cons n rest ih => simp only [List.cons_append, walkListOld]; rw [ih]
+
+theorem endTokOld_body_end (w : WalkOld) (hb : w.inBody = true) (hd : w.depth = 0) :
+    endTokOld w = { w with inBody := false } := by
+  unfold endTokOld
+  simp [hb, hd]
+
+/-- is a direct body child that the pass records -/
+def isBodyElem (n : Node) : Bool := n.named sP || n.named sTbl
+
+theorem drop_cons_getElem? {α : Type} {l : List α} {i : Nat} {x : α} {tl : List α}
+    (h : l.drop i = x :: tl) : l[i]? = some x ∧ l.drop (i + 1) = tl := by
+  constructor
+  · have := List.getElem?_drop (xs := l) (i := i) (j := 0)
+    rw [h] at this
+    simpa using this.symm
+  · have : (l.drop i).tail = l.drop (i + 1) := by simp [List.tail_drop]
+    rw [← this, h]; rfl
+
+/-- one direct child of the body (walk at depth 0 inside the body) -/
+theorem walk_body_child_old (paras tbls : List Node) (tag : Str) (attrs : List (Str × Str)) (ks : List Node)
+    (w : WalkOld) (hb : w.inBody = true) (hd : w.depth = 0) :
+    walkNodeOld paras tbls (.elem tag attrs ks) w =
+      if localName tag == sP then
+        (match paras[w.pi]? with
+         | some p => { w with pi := w.pi + 1, acc := w.acc ++ [p] }
+         | none => w)
+      else if localName tag == sTbl then
+        (match tbls[w.ti]? with
+         | some t => { w with ti := w.ti + 1, acc := w.acc ++ [t] }
+         | none => w)
+      else w := by
+  cases w with
+  | mk ib d pi ti acc =>
+    simp only at hb hd
+    subst hb; subst hd
+    simp only [walkNodeOld]
+    have back : ∀ w' : WalkOld, w'.inBody = true → w'.depth = 1 →
+        endTokOld (walkListOld paras tbls ks w') = { w' with depth := 0 } := by
+      intro w' h1 h2
+      rw [walk_nested_list_old paras tbls ks w' h1 (by omega)]
+      unfold endTokOld
+      cases w' with
+      | mk ib' d' p' t' a' =>
+        simp only at h1 h2
+        subst h1; subst h2
+        simp
+    by_cases hp : (localName tag == sP) = true
+    · simp only [hp, if_true]
+      unfold startTokOld
+      simp only [Bool.not_true, Bool.false_eq_true, if_false, Nat.zero_add, bne_self_eq_false, hp, if_true]
+      cases hq : paras[pi]? with
+      | none => simp only []; rw [back _ rfl rfl]
+      | some p => simp only []; rw [back _ rfl rfl]
+    · have hp' : (localName tag == sP) = false := by simpa using hp
+      by_cases ht : (localName tag == sTbl) = true
+      · simp only [hp', ht, if_true, Bool.false_eq_true, if_false]
+        unfold startTokOld
+        simp only [Bool.not_true, Bool.false_eq_true, if_false, Nat.zero_add, bne_self_eq_false, hp', ht, if_true]
+        cases hq : tbls[ti]? with
+        | none => simp only []; rw [back _ rfl rfl]
+        | some p => simp only []; rw [back _ rfl rfl]
+      · have ht' : (localName tag == sTbl) = false := by simpa using ht
+        simp only [hp', ht', Bool.false_eq_true, if_false]
+        unfold startTokOld
+        simp only [Bool.not_true, Bool.false_eq_true, if_false, Nat.zero_add, bne_self_eq_false, hp', ht']
+        rw [back _ rfl rfl]
+
+
+@[simp] theorem named_elem (tag : Str) (attrs : List (Str × Str)) (ks : List Node) (l : Str) :
+    (Node.elem tag attrs ks).named l = (localName tag == l) := by
+  simp [Node.named, Node.isElem, Node.loc, Node.tag]
+
+@[simp] theorem named_text (s : Str) (l : Str) : (Node.text s).named l = false := by
+  simp [Node.named, Node.isElem]
+
+theorem childrenNamed_cons (n : Node) (rest : List Node) (l : Str) :
+    childrenNamed (n :: rest) l = if n.named l then n :: childrenNamed rest l else childrenNamed rest l := by
+  simp [childrenNamed, List.filter_cons]
+
+/-- the walk over the direct children of the body: the k-th `p` (`tbl`) token is paired with
+the k-th unmarshalled paragraph (table), which is that very child; nothing else is recorded -/
+theorem walk_body_kids_old (paras tbls : List Node) :
+    ∀ (kids : List Node) (w : WalkOld), w.inBody = true → w.depth = 0 →
+      childrenNamed kids sP = paras.drop w.pi → childrenNamed kids sTbl = tbls.drop w.ti →
+      walkListOld paras tbls kids w =
+        { inBody := true, depth := 0, pi := w.pi + (childrenNamed kids sP).length,
+          ti := w.ti + (childrenNamed kids sTbl).length, acc := w.acc ++ kids.filter isBodyElem } := by
+  intro kids
+  induction kids with
+  | nil =>
+    intro w hb hd _ _
+    cases w with
+    | mk ib d pi ti acc =>
+      simp only at hb hd
+      subst hb; subst hd
+      simp [walkListOld, childrenNamed]
+  | cons n rest ih =>
+    intro w hb hd hp ht
+    simp only [walkListOld]
+    cases n with
+    | text s =>
+      simp only [walkNodeOld]
+      rw [childrenNamed_cons] at hp ht
+      simp only [named_text, Bool.false_eq_true, if_false] at hp ht
+      rw [ih w hb hd hp ht]
+      simp [childrenNamed_cons, isBodyElem, List.filter_cons]
+    | elem tag attrs ks =>
+      rw [walk_body_child_old paras tbls tag attrs ks w hb hd]
+      rw [childrenNamed_cons] at hp ht
+      simp only [named_elem] at hp ht
+      by_cases h1 : (localName tag == sP) = true
+      · have h2 : (localName tag == sTbl) = false := by
+          have : localName tag = sP := by simpa using h1
+          rw [this]; decide
+        simp only [h1, h2, if_true, Bool.false_eq_true, if_false] at hp ht ⊢
+        obtain ⟨hget, hdrop⟩ := drop_cons_getElem? hp.symm
+        rw [hget]
+        simp only []
+        rw [ih { w with pi := w.pi + 1, acc := w.acc ++ [Node.elem tag attrs ks] } hb hd (by simpa using hdrop.symm) (by simpa using ht)]
+        simp [childrenNamed_cons, isBodyElem, List.filter_cons, h1, h2]
+        omega
+      · have h1' : (localName tag == sP) = false := by simpa using h1
+        by_cases h2 : (localName tag == sTbl) = true
+        · simp only [h1', h2, if_true, Bool.false_eq_true, if_false] at hp ht ⊢
+          obtain ⟨hget, hdrop⟩ := drop_cons_getElem? ht.symm
+          rw [hget]
+          simp only []
+          rw [ih { w with ti := w.ti + 1, acc := w.acc ++ [Node.elem tag attrs ks] } hb hd (by simpa using hp) (by simpa using hdrop.symm)]
+          simp [childrenNamed_cons, isBodyElem, List.filter_cons, h1', h2]
+          omega
+        · have h2' : (localName tag == sTbl) = false := by simpa using h2
+          simp only [h1', h2', Bool.false_eq_true, if_false] at hp ht ⊢
+          rw [ih w hb hd hp ht]
+          simp [childrenNamed_cons, isBodyElem, List.filter_cons, h1', h2']
+
+
+/-! ### the second pass -/
+
+theorem drop_append_len {α : Type} {l a b : List α} {i : Nat} (h : l.drop i = a ++ b) :
+    l.drop (i + a.length) = b := by
+  have h2 : l.drop (i + a.length) = (l.drop i).drop a.length := by
+    rw [List.drop_drop]
+  rw [h2, h]
+  simp
+
+theorem childrenNamed_append (a b : List Node) (l : Str) :
+    childrenNamed (a ++ b) l = childrenNamed a l ++ childrenNamed b l := by
+  simp [childrenNamed, List.filter_append]
+
+theorem blocksOfList_append (a b : List Node) : blocksOfList (a ++ b) = blocksOfList a ++ blocksOfList b := by
+  induction a with
+  | nil => simp [blocksOfList]
+  | cons n rest ih => simp [blocksOfList, ih]
+
+/-- below an element that is not at block level (an element that is no block container is
+open between the body and here: `depth > containers`) the walk changes nothing: whatever is
+nested there - paragraphs of table cells, nested tables, text boxes, the properties of a
+content control - is not counted -/
+theorem walk_nested_node (paras tbls : List Node) (n : Node) :
+    ∀ w : Walk, w.inBody = true → w.depth > w.boxes → walkNode paras tbls n w = w := by
+  induction n using Node.rec (motive_2 := fun l => ∀ w : Walk, w.inBody = true → w.depth > w.boxes → walkList paras tbls l w = w) with
+  | elem tag attrs kids ih =>
+    intro w hb hd
+    cases w with
+    | mk ib d bx p t a =>
+      simp only at hb hd
+      subst hb
+      simp only [walkNode]
+      have hs : startTok paras tbls (localName tag) ⟨true, d, bx, p, t, a⟩ = ⟨true, d + 1, bx, p, t, a⟩ := by
+        unfold startTok
+        have : (d + 1 != bx + 1) = true := by
+          simp only [bne_iff_ne, ne_eq]; omega
+        simp [this]
+      rw [hs, ih ⟨true, d + 1, bx, p, t, a⟩ rfl (by show d + 1 > bx; omega)]
+      unfold endTok
+      have h0 : (d + 1 == 0) = false := by simp
+      have h1 : (d + 1 == bx) = false := by
+        simp only [beq_eq_false_iff_ne, ne_eq]; omega
+      simp [h0, h1]
+  | text s => intro w _ _; simp [walkNode]
+  | nil => simp [walkList]
+  | cons n rest ihn ihr =>
+    rename_i w hb hd
+    simp only [walkList]
+    rw [ihn w hb hd, ihr w hb hd]
+
+theorem walk_nested_list (paras tbls : List Node) (l : List Node) :
+    ∀ w : Walk, w.inBody = true → w.depth > w.boxes → walkList paras tbls l w = w := by
+  induction l with
+  | nil => intro w _ _; simp [walkList]
+  | cons n rest ih =>
+    intro w hb hd
+    simp only [walkList]
+    rw [walk_nested_node paras tbls n w hb hd, ih w hb hd]
 
 /-- outside the body the walk only looks for the `body` start tag -/
 theorem walk_outside_node (paras tbls : List Node) (n : Node) :
@@ -101,135 +335,177 @@ theorem endTok_body_end (w : Walk) (hb : w.inBody = true) (hd : w.depth = 0) :
   unfold endTok
   simp [hb, hd]
 
-/-- is a direct body child that the pass records -/
-def isBodyElem (n : Node) : Bool := n.named sP || n.named sTbl
-
-theorem drop_cons_getElem? {α : Type} {l : List α} {i : Nat} {x : α} {tl : List α}
-    (h : l.drop i = x :: tl) : l[i]? = some x ∧ l.drop (i + 1) = tl := by
-  constructor
-  · have := List.getElem?_drop (xs := l) (i := i) (j := 0)
-    rw [h] at this
-    simpa using this.symm
-  · have : (l.drop i).tail = l.drop (i + 1) := by simp [List.tail_drop]
-    rw [← this, h]; rfl
-
-/-- one direct child of the body (walk at depth 0 inside the body) -/
-theorem walk_body_child (paras tbls : List Node) (tag : Str) (attrs : List (Str × Str)) (ks : List Node)
-    (w : Walk) (hb : w.inBody = true) (hd : w.depth = 0) :
-    walkNode paras tbls (.elem tag attrs ks) w =
-      if localName tag == sP then
-        (match paras[w.pi]? with
-         | some p => { w with pi := w.pi + 1, acc := w.acc ++ [p] }
-         | none => w)
-      else if localName tag == sTbl then
-        (match tbls[w.ti]? with
-         | some t => { w with ti := w.ti + 1, acc := w.acc ++ [t] }
-         | none => w)
-      else w := by
-  cases w with
-  | mk ib d pi ti acc =>
-    simp only at hb hd
-    subst hb; subst hd
-    simp only [walkNode]
-    have back : ∀ w' : Walk, w'.inBody = true → w'.depth = 1 →
-        endTok (walkList paras tbls ks w') = { w' with depth := 0 } := by
-      intro w' h1 h2
-      rw [walk_nested_list paras tbls ks w' h1 (by omega)]
-      unfold endTok
-      cases w' with
-      | mk ib' d' p' t' a' =>
-        simp only at h1 h2
-        subst h1; subst h2
-        simp
-    by_cases hp : (localName tag == sP) = true
-    · simp only [hp, if_true]
-      unfold startTok
-      simp only [Bool.not_true, Bool.false_eq_true, if_false, Nat.zero_add, bne_self_eq_false, hp, if_true]
-      cases hq : paras[pi]? with
-      | none => simp only []; rw [back _ rfl rfl]
-      | some p => simp only []; rw [back _ rfl rfl]
-    · have hp' : (localName tag == sP) = false := by simpa using hp
-      by_cases ht : (localName tag == sTbl) = true
-      · simp only [hp', ht, if_true, Bool.false_eq_true, if_false]
-        unfold startTok
-        simp only [Bool.not_true, Bool.false_eq_true, if_false, Nat.zero_add, bne_self_eq_false, hp', ht, if_true]
-        cases hq : tbls[ti]? with
-        | none => simp only []; rw [back _ rfl rfl]
-        | some p => simp only []; rw [back _ rfl rfl]
-      · have ht' : (localName tag == sTbl) = false := by simpa using ht
-        simp only [hp', ht', Bool.false_eq_true, if_false]
-        unfold startTok
-        simp only [Bool.not_true, Bool.false_eq_true, if_false, Nat.zero_add, bne_self_eq_false, hp', ht']
-        rw [back _ rfl rfl]
-
-
-@[simp] theorem named_elem (tag : Str) (attrs : List (Str × Str)) (ks : List Node) (l : Str) :
-    (Node.elem tag attrs ks).named l = (localName tag == l) := by
-  simp [Node.named, Node.isElem, Node.loc, Node.tag]
-
-@[simp] theorem named_text (s : Str) (l : Str) : (Node.text s).named l = false := by
-  simp [Node.named, Node.isElem]
-
-theorem childrenNamed_cons (n : Node) (rest : List Node) (l : Str) :
-    childrenNamed (n :: rest) l = if n.named l then n :: childrenNamed rest l else childrenNamed rest l := by
-  simp [childrenNamed, List.filter_cons]
-
-/-- the walk over the direct children of the body: the k-th `p` (`tbl`) token is paired with
-the k-th unmarshalled paragraph (table), which is that very child; nothing else is recorded -/
-theorem walk_body_kids (paras tbls : List Node) :
-    ∀ (kids : List Node) (w : Walk), w.inBody = true → w.depth = 0 →
-      childrenNamed kids sP = paras.drop w.pi → childrenNamed kids sTbl = tbls.drop w.ti →
-      walkList paras tbls kids w =
-        { inBody := true, depth := 0, pi := w.pi + (childrenNamed kids sP).length,
-          ti := w.ti + (childrenNamed kids sTbl).length, acc := w.acc ++ kids.filter isBodyElem } := by
-  intro kids
-  induction kids with
-  | nil =>
-    intro w hb hd _ _
+/-- the walk at block level (inside the body, every element open below the body a block
+container: `depth = containers`): over a subtree it pairs the `p` / `tbl` elements of the
+subtree's block level - the subtree itself, or, if it is a block container, the block level of
+its content - with the next unmarshalled paragraphs / tables, which are those very elements
+when the unmarshalled slices continue with them; it records them in document order and nothing
+else, and comes back at the same level. -/
+theorem walk_block_node (paras tbls : List Node) (n : Node) :
+    ∀ (w : Walk) (rp rt : List Node), w.inBody = true → w.depth = w.boxes →
+      paras.drop w.pi = childrenNamed (blocksOfNode n) sP ++ rp →
+      tbls.drop w.ti = childrenNamed (blocksOfNode n) sTbl ++ rt →
+      walkNode paras tbls n w =
+        { w with pi := w.pi + (childrenNamed (blocksOfNode n) sP).length,
+                 ti := w.ti + (childrenNamed (blocksOfNode n) sTbl).length,
+                 acc := w.acc ++ (blocksOfNode n).filter isBodyElem } := by
+  induction n using Node.rec (motive_2 := fun l =>
+      ∀ (w : Walk) (rp rt : List Node), w.inBody = true → w.depth = w.boxes →
+        paras.drop w.pi = childrenNamed (blocksOfList l) sP ++ rp →
+        tbls.drop w.ti = childrenNamed (blocksOfList l) sTbl ++ rt →
+        walkList paras tbls l w =
+          { w with pi := w.pi + (childrenNamed (blocksOfList l) sP).length,
+                   ti := w.ti + (childrenNamed (blocksOfList l) sTbl).length,
+                   acc := w.acc ++ (blocksOfList l).filter isBodyElem }) with
+  | elem tag attrs kids ih =>
+    intro w rp rt hb hd hp ht
     cases w with
-    | mk ib d pi ti acc =>
-      simp only at hb hd
+    | mk ib d bx p t a =>
+      simp only at hb hd hp ht
       subst hb; subst hd
-      simp [walkList, childrenNamed]
-  | cons n rest ih =>
-    intro w hb hd hp ht
+      simp only [walkNode]
+      by_cases hc : blockContainers.contains (localName tag) = true
+      · -- a block container at block level: looked through
+        simp only [blocksOfNode, hc, if_true] at hp ht ⊢
+        have hs : startTok paras tbls (localName tag) ⟨true, d, d, p, t, a⟩ = ⟨true, d + 1, d + 1, p, t, a⟩ := by
+          unfold startTok
+          have hm : localName tag ∈ blockContainers := by simpa using hc
+          simp [hm]
+        rw [hs, ih ⟨true, d + 1, d + 1, p, t, a⟩ rp rt rfl rfl hp ht]
+        unfold endTok
+        simp
+      · have hc' : blockContainers.contains (localName tag) = false := by simpa using hc
+        simp only [blocksOfNode, hc', Bool.false_eq_true, if_false] at hp ht ⊢
+        have back : ∀ w' : Walk, w'.inBody = true → w'.depth = d + 1 → w'.boxes = d →
+            endTok (walkList paras tbls kids w') = { w' with depth := d } := by
+          intro w' h1 h2 h3
+          rw [walk_nested_list paras tbls kids w' h1 (by omega)]
+          unfold endTok
+          cases w' with
+          | mk ib' d' bx' p' t' a' =>
+            simp only at h1 h2 h3
+            subst h1; subst h2; subst h3
+            simp
+        have hm : ¬ (localName tag ∈ blockContainers) := by simpa using hc'
+        rw [childrenNamed_cons] at hp ht
+        simp only [named_elem, childrenNamed, List.filter_nil] at hp ht
+        by_cases h1 : (localName tag == sP) = true
+        · have h2 : (localName tag == sTbl) = false := by
+            have : localName tag = sP := by simpa using h1
+            rw [this]; decide
+          simp only [h1, h2, if_true, Bool.false_eq_true, if_false, List.nil_append, List.cons_append] at hp ht
+          obtain ⟨hget, _⟩ := drop_cons_getElem? hp
+          have hs : startTok paras tbls (localName tag) ⟨true, d, d, p, t, a⟩ =
+              ⟨true, d + 1, d, p + 1, t, a ++ [Node.elem tag attrs kids]⟩ := by
+            unfold startTok
+            simp [hm, h1, hget]
+          rw [hs, back _ rfl rfl rfl]
+          simp [childrenNamed_cons, childrenNamed, isBodyElem, List.filter_cons, h1, h2]
+        · have h1' : (localName tag == sP) = false := by simpa using h1
+          by_cases h2 : (localName tag == sTbl) = true
+          · simp only [h1', h2, if_true, Bool.false_eq_true, if_false, List.nil_append, List.cons_append] at hp ht
+            obtain ⟨hget, _⟩ := drop_cons_getElem? ht
+            have hs : startTok paras tbls (localName tag) ⟨true, d, d, p, t, a⟩ =
+                ⟨true, d + 1, d, p, t + 1, a ++ [Node.elem tag attrs kids]⟩ := by
+              unfold startTok
+              simp [hm, h1', h2, hget]
+            rw [hs, back _ rfl rfl rfl]
+            simp [childrenNamed_cons, childrenNamed, isBodyElem, List.filter_cons, h1', h2]
+          · have h2' : (localName tag == sTbl) = false := by simpa using h2
+            have hs : startTok paras tbls (localName tag) ⟨true, d, d, p, t, a⟩ = ⟨true, d + 1, d, p, t, a⟩ := by
+              unfold startTok
+              simp [hm, h1', h2']
+            rw [hs, back _ rfl rfl rfl]
+            simp [childrenNamed_cons, childrenNamed, isBodyElem, List.filter_cons, h1', h2']
+  | text s =>
+    intro w rp rt _ _ _ _
+    cases w
+    simp [walkNode, blocksOfNode, childrenNamed]
+  | nil =>
+    rename_i w rp rt hb hd hp ht
+    cases w
+    simp [walkList, blocksOfList, childrenNamed]
+  | cons n rest ihn ihr =>
+    rename_i w rp rt hb hd hp ht
+    simp only [blocksOfList, childrenNamed_append, List.append_assoc] at hp ht
     simp only [walkList]
+    rw [ihn w _ _ hb hd hp ht]
+    rw [ihr ⟨w.inBody, w.depth, w.boxes, w.pi + (childrenNamed (blocksOfNode n) sP).length,
+      w.ti + (childrenNamed (blocksOfNode n) sTbl).length, w.acc ++ (blocksOfNode n).filter isBodyElem⟩ rp rt hb hd (drop_append_len hp) (drop_append_len ht)]
+    cases w
+    simp [blocksOfList, childrenNamed_append, List.filter_append, Nat.add_assoc]
+
+theorem walk_block_list (paras tbls : List Node) (l : List Node) :
+    ∀ (w : Walk) (rp rt : List Node), w.inBody = true → w.depth = w.boxes →
+      paras.drop w.pi = childrenNamed (blocksOfList l) sP ++ rp →
+      tbls.drop w.ti = childrenNamed (blocksOfList l) sTbl ++ rt →
+      walkList paras tbls l w =
+        { w with pi := w.pi + (childrenNamed (blocksOfList l) sP).length,
+                 ti := w.ti + (childrenNamed (blocksOfList l) sTbl).length,
+                 acc := w.acc ++ (blocksOfList l).filter isBodyElem } := by
+  induction l with
+  | nil =>
+    intro w rp rt _ _ _ _
+    cases w
+    simp [walkList, blocksOfList, childrenNamed]
+  | cons n rest ih =>
+    intro w rp rt hb hd hp ht
+    simp only [blocksOfList, childrenNamed_append, List.append_assoc] at hp ht
+    simp only [walkList]
+    rw [walk_block_node paras tbls n w _ _ hb hd hp ht]
+    rw [ih ⟨w.inBody, w.depth, w.boxes, w.pi + (childrenNamed (blocksOfNode n) sP).length,
+      w.ti + (childrenNamed (blocksOfNode n) sTbl).length, w.acc ++ (blocksOfNode n).filter isBodyElem⟩ rp rt hb hd (drop_append_len hp) (drop_append_len ht)]
+    cases w
+    simp [blocksOfList, childrenNamed_append, List.filter_append, Nat.add_assoc]
+
+/-- the block level of children none of which is a block container is the element children -/
+theorem blocksOfList_plain (l : List Node)
+    (h : ∀ n ∈ l, blockContainers.contains n.loc = false) : blocksOfList l = l.filter (·.isElem) := by
+  induction l with
+  | nil => simp [blocksOfList]
+  | cons n rest ih =>
+    have hr := ih (fun m hm => h m (List.mem_cons_of_mem _ hm))
+    cases n with
+    | text s => simp [blocksOfList, blocksOfNode, hr, Node.isElem, List.filter_cons]
+    | elem tag attrs kids =>
+      have hn := h (.elem tag attrs kids) (List.mem_cons_self ..)
+      simp only [Node.loc, Node.tag] at hn
+      have hm : ¬ (localName tag ∈ blockContainers) := by simpa using hn
+      simp [blocksOfList, blocksOfNode, hm, hr, Node.isElem, List.filter_cons]
+
+theorem childrenNamed_filter_isElem (l : List Node) (x : Str) :
+    childrenNamed (l.filter (·.isElem)) x = childrenNamed l x := by
+  simp only [childrenNamed, List.filter_filter]
+  apply List.filter_congr
+  intro n _
+  cases n <;> simp [Node.named, Node.isElem]
+
+theorem childNamed_filter_isElem (l : List Node) (x : Str) :
+    childNamed (l.filter (·.isElem)) x = childNamed l x := by
+  unfold childNamed
+  induction l with
+  | nil => rfl
+  | cons n rest ih =>
     cases n with
     | text s =>
-      simp only [walkNode]
-      rw [childrenNamed_cons] at hp ht
-      simp only [named_text, Bool.false_eq_true, if_false] at hp ht
-      rw [ih w hb hd hp ht]
-      simp [childrenNamed_cons, isBodyElem, List.filter_cons]
-    | elem tag attrs ks =>
-      rw [walk_body_child paras tbls tag attrs ks w hb hd]
-      rw [childrenNamed_cons] at hp ht
-      simp only [named_elem] at hp ht
-      by_cases h1 : (localName tag == sP) = true
-      · have h2 : (localName tag == sTbl) = false := by
-          have : localName tag = sP := by simpa using h1
-          rw [this]; decide
-        simp only [h1, h2, if_true, Bool.false_eq_true, if_false] at hp ht ⊢
-        obtain ⟨hget, hdrop⟩ := drop_cons_getElem? hp.symm
-        rw [hget]
-        simp only []
-        rw [ih { w with pi := w.pi + 1, acc := w.acc ++ [Node.elem tag attrs ks] } hb hd (by simpa using hdrop.symm) (by simpa using ht)]
-        simp [childrenNamed_cons, isBodyElem, List.filter_cons, h1, h2]
-        omega
-      · have h1' : (localName tag == sP) = false := by simpa using h1
-        by_cases h2 : (localName tag == sTbl) = true
-        · simp only [h1', h2, if_true, Bool.false_eq_true, if_false] at hp ht ⊢
-          obtain ⟨hget, hdrop⟩ := drop_cons_getElem? ht.symm
-          rw [hget]
-          simp only []
-          rw [ih { w with ti := w.ti + 1, acc := w.acc ++ [Node.elem tag attrs ks] } hb hd (by simpa using hp) (by simpa using hdrop.symm)]
-          simp [childrenNamed_cons, isBodyElem, List.filter_cons, h1', h2]
-          omega
-        · have h2' : (localName tag == sTbl) = false := by simpa using h2
-          simp only [h1', h2', Bool.false_eq_true, if_false] at hp ht ⊢
-          rw [ih w hb hd hp ht]
-          simp [childrenNamed_cons, isBodyElem, List.filter_cons, h1', h2']
+      simp only [List.filter_cons, Node.isElem, Bool.false_eq_true, if_false, List.find?_cons, named_text]
+      exact ih
+    | elem t a k =>
+      simp only [List.filter_cons, Node.isElem, if_true, List.find?_cons]
+      split
+      · rfl
+      · exact ih
 
+/-- … so `p` / `tbl` are looked for among the direct children, as before the repair -/
+theorem blocks_plain_bodyElems (l : List Node)
+    (h : ∀ n ∈ l, blockContainers.contains n.loc = false) :
+    (blocksOfList l).filter isBodyElem = l.filter isBodyElem := by
+  rw [blocksOfList_plain l h, List.filter_filter]
+  apply List.filter_congr
+  intro n _
+  cases n with
+  | text s => simp [isBodyElem, Node.isElem]
+  | elem tag attrs kids => simp [Node.isElem]
 
 /-! ### the inheritance chain -/
 
@@ -484,6 +760,68 @@ theorem decodeList_eq (l : List Node) : ∀ d, d ≤ maxInlineDepth →
     · have : ¬ (d + max (nestNode n) (nestList rest) ≤ maxInlineDepth) := by omega
       simp [h1, this]
 
+/-! ### the depth limit of `decodeBlocks` -/
+
+/-- `decodeBlocks` entered with `d ≤ maxInlineDepth`: it reaches the end tag exactly when the
+block containers below nest no deeper than the limit allows, and then it has offered the
+block level `blocksOfList` to its callback, in document order -/
+theorem decodeBlocksNode_eq (n : Node) : ∀ d, d ≤ maxInlineDepth →
+    decodeBlocksNode d n = if d + blockNestNode n ≤ maxInlineDepth then some (blocksOfNode n) else none := by
+  induction n using Node.rec (motive_2 := fun l => ∀ d, d ≤ maxInlineDepth →
+      decodeBlocksList d l = if d + blockNestList l ≤ maxInlineDepth then some (blocksOfList l) else none) with
+  | elem tag attrs kids ih =>
+    intro d hd
+    simp only [decodeBlocksNode, blockNestNode, blocksOfNode]
+    split
+    · by_cases h : d + 1 > maxInlineDepth
+      · have h2 : ¬ (d + (blockNestList kids + 1) ≤ maxInlineDepth) := by omega
+        simp [h, h2]
+      · have h1 : d + 1 ≤ maxInlineDepth := by omega
+        simp only [h, if_false]
+        rw [ih (d + 1) h1]
+        have : (d + 1 + blockNestList kids ≤ maxInlineDepth) ↔ (d + (blockNestList kids + 1) ≤ maxInlineDepth) := by omega
+        simp only [this]
+    · simp [hd]
+  | text s => intro d hd; simp [decodeBlocksNode, blockNestNode, blocksOfNode, hd]
+  | nil => rename_i d hd; simp [decodeBlocksList, blockNestList, blocksOfList, hd]
+  | cons n rest ihn ihr =>
+    rename_i d hd
+    simp only [decodeBlocksList, blockNestList, blocksOfList]
+    rw [ihn d hd, ihr d hd]
+    by_cases h1 : d + blockNestNode n ≤ maxInlineDepth
+    · by_cases h2 : d + blockNestList rest ≤ maxInlineDepth
+      · have : d + max (blockNestNode n) (blockNestList rest) ≤ maxInlineDepth := by omega
+        simp [h1, h2, this]
+      · have : ¬ (d + max (blockNestNode n) (blockNestList rest) ≤ maxInlineDepth) := by omega
+        simp [h1, h2, this]
+    · have : ¬ (d + max (blockNestNode n) (blockNestList rest) ≤ maxInlineDepth) := by omega
+      simp [h1, this]
+
+theorem decodeBlocksList_eq (l : List Node) : ∀ d, d ≤ maxInlineDepth →
+    decodeBlocksList d l = if d + blockNestList l ≤ maxInlineDepth then some (blocksOfList l) else none := by
+  induction l with
+  | nil => intro d hd; simp [decodeBlocksList, blockNestList, blocksOfList, hd]
+  | cons n rest ih =>
+    intro d hd
+    simp only [decodeBlocksList, blockNestList, blocksOfList]
+    rw [decodeBlocksNode_eq n d hd, ih d hd]
+    by_cases h1 : d + blockNestNode n ≤ maxInlineDepth
+    · by_cases h2 : d + blockNestList rest ≤ maxInlineDepth
+      · have : d + max (blockNestNode n) (blockNestList rest) ≤ maxInlineDepth := by omega
+        simp [h1, h2, this]
+      · have : ¬ (d + max (blockNestNode n) (blockNestList rest) ≤ maxInlineDepth) := by omega
+        simp [h1, h2, this]
+    · have : ¬ (d + max (blockNestNode n) (blockNestList rest) ≤ maxInlineDepth) := by omega
+      simp [h1, this]
+
+/-- `blocksDecode` says: block containers nest at most `maxInlineDepth` deep -/
+theorem blocksDecode_iff (kids : List Node) : blocksDecode kids = true ↔ blockNestList kids ≤ maxInlineDepth := by
+  unfold blocksDecode
+  rw [decodeBlocksList_eq kids 0 (Nat.zero_le _)]
+  by_cases h : 0 + blockNestList kids ≤ maxInlineDepth
+  · simp only [h, if_true, Option.isSome_some, true_iff]; omega
+  · simp only [h, if_false, Option.isSome_none, Bool.false_eq_true, false_iff]; omega
+
 /-- the recursion of `decodeContent` never goes deeper than `maxInlineDepth + 1` (the last
 level being the call that is refused at once) -/
 theorem reachNode_le (n : Node) : ∀ d, d ≤ maxInlineDepth → reachNode d n ≤ maxInlineDepth + 1 := by
@@ -538,6 +876,24 @@ theorem runs_wrapN (ctag : Str) (hc : containers.contains (localName ctag) = tru
   | zero => simp [wrapN]
   | succ k ih =>
     simp only [wrapN, runsOfList, runsOfNode, hr, hc, Bool.false_eq_true, if_false, if_true, List.append_nil]
+    exact ih
+
+theorem blockNest_wrapN (ctag : Str) (hc : blockContainers.contains (localName ctag) = true)
+    (inner : List Node) : ∀ k, blockNestList (wrapN ctag k inner) = k + blockNestList inner := by
+  intro k
+  induction k with
+  | zero => simp [wrapN]
+  | succ k ih =>
+    simp only [wrapN, blockNestList, blockNestNode, hc, if_true]
+    rw [ih]; omega
+
+theorem blocks_wrapN (ctag : Str) (hc : blockContainers.contains (localName ctag) = true)
+    (inner : List Node) : ∀ k, blocksOfList (wrapN ctag k inner) = blocksOfList inner := by
+  intro k
+  induction k with
+  | zero => simp [wrapN]
+  | succ k ih =>
+    simp only [wrapN, blocksOfList, blocksOfNode, hc, if_true, List.append_nil]
     exact ih
 
 /-! ### `limitTableGrid` -/
